@@ -233,7 +233,8 @@ def sandbox_insts(tier):
 
 def units(tier):
     insts = []
-    for t in (['unsigned char'] if tier == 'quick' else ['unsigned char', 'unsigned short']):
+    # 16-bit tokens (65536-entry view) were measured to time out under dfcc on every back end (>120 s per instance): not claimed
+    for t in ['unsigned char']:
         insts += [unused_index_inst(t, tier), get_idx_inst(t, tier), remove_inst(t, tier), lookup_inst(t, tier), ctor_inst(t, tier)]
     insts += owner_insts(tier) + sandbox_insts(tier)
     return [Unit('C15_app_pointer_tokens', insts)]
@@ -245,6 +246,6 @@ ASSUMPTIONS = [
 ]
 TRUSTED = ['the array view of std::map (vlib/models.py, M-map)']
 MANIFEST = {
-    'level_text': 'The token table is verified against its abstract view (a partial function token -> pointer): registration returns a token in 1..limit that was free, makes exactly that token resolve to the pointer and leaves every other token unchanged (ghost witness index), aborting only when every token in 1..limit is in use; lookup returns the registered pointer or aborts; release removes exactly the token. The two scans of get_unused_index are closed by loop contracts (inductive invariants, decreases clauses), so the result holds for every table state and every limit - no bound on histories. Token type uint8 with all limits 1..254 symbolic (thorough: also uint16).',
-    'level_note': 'Assumes the M-map model of std::map. 32/64-bit token types use the same instantiated code with a wider key; dfcc cannot frame writes into an unbounded array view (measured, DESIGN.md section 2), so they are not claimed here. Owner objects (app_pointer move/destroy) are separate instances.',
+    'level_text': 'The token table is verified against its abstract view (a partial function token -> pointer): registration returns a token in 1..limit that was free, makes exactly that token resolve to the pointer and leaves every other token unchanged (ghost witness index), aborting only when every token in 1..limit is in use; lookup returns the registered pointer or aborts; release removes exactly the token. The two scans of get_unused_index are closed by loop contracts (inductive invariants, decreases clauses), so the result holds for every table state and every limit - no bound on histories. Token type uint8 with all limits 1..254 symbolic.',
+    'level_note': 'Assumes the M-map model of std::map. 16/32/64-bit token types use the same instantiated code with a wider key (16-bit: the 65536-entry view times out; wider: dfcc cannot frame writes into an unbounded array view, measured, DESIGN.md section 2), so they are not claimed here. Owner objects (app_pointer move/destroy) are separate instances.',
 }
